@@ -9,7 +9,7 @@ cd "$W" && git checkout -q --detach "$(git -C /repo rev-parse HEAD)" && git chec
 export CARGO_TARGET_DIR=/tmp/mut/verify-target CARGO_NET_OFFLINE=true
 pkg=tera; feat=""
 if head -1 "$out/demo_$k.rs" | grep -q 'place: tera-contrib/tests'; then pkg=tera-contrib; feat="--all-features"; fi
-demo="$pkg/tests/demo_${sid}.rs"
+mkdir -p "$pkg/tests"; demo="$pkg/tests/demo_${sid}.rs"
 cp "$out/demo_$k.rs" "$demo"
 log=/tmp/mut/verify_$sid.log; : > $log
 echo "## demo on unchanged HEAD" >> $log
@@ -17,7 +17,7 @@ timeout 1500 cargo test --offline -p $pkg $feat --test "demo_${sid}" >> $log 2>&
 if ! git apply --check "$out/patch_$k.diff" 2>>$log; then echo "$sid: patch does not apply"; exit 1; fi
 git apply "$out/patch_$k.diff"
 echo "## 84 tests with patch" >> $log
-timeout 1500 cargo nextest run --workspace --no-fail-fast --offline -E 'not binary(/demo_/)' >> $log 2>&1; suite=$?
+timeout 1500 cargo nextest run --workspace --no-fail-fast --offline -E 'not binary(~demo_)' >> $log 2>&1; suite=$?
 echo "## demo with patch" >> $log
 timeout 1500 cargo test --offline -p $pkg $feat --test "demo_${sid}" >> $log 2>&1; mut=$?
 git checkout -q -- . ; rm -f "$demo"; git clean -fdq tera/tests tera-contrib/tests tera/src 2>/dev/null
